@@ -306,7 +306,8 @@ def corrupt(lexemes, starts, tape, n, late=False, ml=False):
             # a byte that is not UTF-8 (0xFF, or a lone continuation byte) somewhere in the file: the text cannot
             # even be decoded, whatever surrounds the byte
             lex.insert(i, "\udcff" if tape.bool(0.5, "ff-or-continuation") else "\udc85")
-            must_reject = True
+            # ... unless an earlier byte-level truncation (applied last, to the rendered text) may cut the byte away
+            must_reject = cut_frac is None
         elif kind == "dup-block":
             if len(starts) >= 2 and pristine[0]:
                 k = tape.choose(len(starts) - 1, "which-decl")
